@@ -904,7 +904,7 @@ std::vector<Scenario> scenarios_for(const std::string& prop, int tier) {
     }
     else if (prop == "C13") {
         // all sequences up to the length over {S ok, F all failed, X cancelled subscribe, R0 reconnect sp=0, R1 reconnect sp=1, M broker publishes}
-        int L = tier ? 5 : 4; const char* alpha = "SFXrRMBP"; int nseq = 0;   // P = one SUBSCRIBE with two filters, one granted and one refused
+        int L = tier ? 5 : 4; const char* alpha = "SFXrRMBPb"; int nseq = 0;   // b = like B, but the accepted CONNACK after the refusal says Session Present 0   // P = one SUBSCRIBE with two filters, one granted and one refused
         std::vector<int> idx; std::function<void()> gen = [&]() {
             if (!idx.empty()) { Scenario s = base("Q-", {RUN(), RECV(12)}, 0, 0, M_C13); std::string nm; int subs = 0, recon = 0, connects = 1; s.broker.sp_policy = {-1};
                 for (int k : idx) { char c = alpha[k]; nm.push_back(c);
@@ -913,13 +913,14 @@ std::vector<Scenario> scenarios_for(const std::string& prop, int tier) {
                     if (c == 'F') { s.script.push_back(SUB({{"f/" + std::to_string(subs), 1}})); s.script.push_back(BARRIER()); s.broker.suback_script.resize(subs + 1); s.broker.suback_script[subs] = {0x87}; subs++; }
                     if (c == 'X') { Action a = slot(SUB({{"x/" + std::to_string(subs), 1}})); s.script.push_back(a); s.script.push_back(SIGNAL(-2, 1)); s.script.push_back(A(Action::KILLCONN)); s.script.push_back(WAIT_HS(2 + recon)); s.script.push_back(BARRIER()); recon++; connects++; s.broker.sp_policy.push_back(-1); subs++; }
                     if (c == 'r' || c == 'R') { s.script.push_back(A(Action::KILLCONN)); s.script.push_back(WAIT_HS(2 + recon)); recon++; connects++; s.broker.sp_policy.push_back(c == 'r' ? 0 : -1); }
+                    if (c == 'b') { s.broker.connack_rc_script.resize(connects + 1, 0); s.broker.connack_rc_script[connects] = 0x88; connects += 2; s.script.push_back(A(Action::KILLCONN)); s.script.push_back(WAIT_HS(2 + recon)); recon++; s.broker.sp_policy.push_back(0); }
                     if (c == 'B') { s.broker.connack_rc_script.resize(connects + 1, 0); s.broker.connack_rc_script[connects] = 0x89; connects += 2; s.script.push_back(A(Action::KILLCONN)); s.script.push_back(WAIT_HS(2 + recon)); recon++; s.broker.sp_policy.push_back(-1); }
                     if (c == 'M') { s.script.push_back(BPUB(1, 100 + int(s.script.size()))); } }
                 for (size_t i = 0; i < s.broker.suback_script.size(); ++i) if (s.broker.suback_script[i].empty()) s.broker.suback_script[i] = {0x01};
                 s.name += nm; s.expect_all_success = false; s.fam = tier ? (F_REORDER | F_CHUNK) : 0; s.D = tier ? 1 : 0; s.idle_tail_s = 0; nseq++;
                 v.push_back(s); }
             if (int(idx.size()) == L) return;
-            for (int k = 0; k < 8; ++k) { idx.push_back(k); gen(); idx.pop_back(); } };
+            for (int k = 0; k < 9; ++k) { idx.push_back(k); gen(); idx.pop_back(); } };
         gen();
         // reconnect through the write path and through both paths at once, with faults around the CONNACK
         { auto s = base("Q-faulty-SrMS", {RUN(), RECV(8), SUB({{"a", 1}}), BARRIER(), PUB(1, 1), PUB(2, 2), SUB({{"b", 1}})}, F_WR | F_RDCUT | F_BCLOSE | F_REORDER | F_TAIL, tier ? 3 : 2, M_C13); s.broker.sp_policy = {-1, 0, -1, 0}; s.expect_all_success = false; v.push_back(s);
@@ -961,6 +962,8 @@ std::vector<Scenario> scenarios_for(const std::string& prop, int tier) {
             { Action a = SUB({{"p/t", 1}}, {ref::pnum(0x0B, 5)}); req(a, subid == 0 ? 109 : 0); }                // subscription_identifier_not_available
             s.max_steps = 1500; v.push_back(s);
             // the same capabilities learnt through an enhanced-authentication handshake (CONNACK follows AUTH rounds)
+            // the client's own CONNECT properties (limits for the opposite direction) must not leak into the checks of what it may send
+            if (id % 3 == 2 || tier) { Scenario c2 = s; c2.name = "CapCo-" + std::to_string(id - 1); c2.connect_props = {ref::pnum(0x22, 7), ref::pnum(0x21, 9), ref::pnum(0x27, 4096), ref::pnum(0x11, 30)}; v.push_back(c2); }
             if (id % 3 == 1 || tier) { s.name = "CapAuth-" + std::to_string(id - 1); s.auth.present = true; s.auth.method = "SCRAM"; s.broker.auth_method = "SCRAM"; s.broker.auth_rounds = (id % 2) ? 2 : 0; v.push_back(s); }
         }
         // capabilities change from one connection to the next: requests issued while holding the second CONNACK follow the second
